@@ -1,24 +1,24 @@
 SPECIFICATION Spec
 CONSTANTS
-  Stacks <- StacksAll
-  Outcomes <- Out13
-  TagOps <- TagOpsAll
-  Times = {"1", "2", "none"}
-  MaxCalls = 24
-  MaxTests = 4
-  MaxRuns = 2
-  MaxTagOps = 5
-  MaxTimes = 4
+  Stacks <- StacksOld
+  Outcomes <- OutDet
+  TagOps <- TagOps2
+  Times = {"1", "2"}
+  MaxCalls = 11
+  MaxTests = 3
+  MaxRuns = 1
+  MaxTagOps = 0
+  MaxTimes = 0
   MaxIds = 9
-  AllowStop = TRUE
+  AllowStop = FALSE
   AllowSetFF = FALSE
   AllowSkipNoStart = FALSE
-  AllowDone = TRUE
-  AllowProgress = TRUE
-  PreFF = {FALSE, TRUE}
+  AllowDone = FALSE
+  AllowProgress = FALSE
+  PreFF = {FALSE}
   Coded = {}
   SubErrs = {}
-  DetIds = {"fresh"}
+  DetIds = {"fresh", "reuse"}
 CONSTRAINT ExportC
 INVARIANT Verdict
 INVARIANT TagsScoped
